@@ -484,8 +484,6 @@ Record InvO (own : nat -> nat) (s : atomic_state) (cs : list vv) : Prop := mkInv
   i_cnt1 : 1 <= at_cnt s;
   i_cnt7 : at_cnt s <= MAX_ATOMIC_HISTORY;
   i_mut : at_mutating s = false;
-  i_um : forall t, t < length cs -> vle (at_unsync_mut s) (clk cs t);
-  i_ul : forall t, t < length cs -> vle (at_unsync_loaded s) (clk cs t);
   i_nthr : length cs <= MAX_THREADS;
   i_clen : forall t, t < length cs -> t < length (clk cs t);
   i_dead : forall a, at_cnt s <= a -> get_store s a = store_default;
@@ -874,8 +872,6 @@ Section LoadPhase.
     - rewrite Fc. apply (i_cnt1 HI).
     - rewrite Fc. apply (i_cnt7 HI).
     - rewrite Fm. apply (i_mut HI).
-    - rewrite Fum. apply (i_um HI).
-    - rewrite Ful. apply (i_ul HI).
     - apply (i_nthr HI).
     - apply (i_clen HI).
     - intros a Ha. rewrite Fc in Ha.
@@ -962,8 +958,6 @@ Proof.
   assert (Hgrow : forall u, vle (clk cs u) (clk (list_set cs t v) u)).
   { intros u. rewrite Hc. destruct (Nat.eqb_spec u t) as [Heq|_]; [subst u; exact Hle | apply vle_refl]. }
   destruct HI. constructor; try assumption; rewrite ?list_set_length.
-  - intros u Hu. eapply vle_trans; [apply i_um0; exact Hu | apply Hgrow].
-  - intros u Hu. eapply vle_trans; [apply i_ul0; exact Hu | apply Hgrow].
   - exact i_nthr0.
   - intros u Hu. rewrite Hc. destruct (Nat.eqb_spec u t) as [Heq|_]; [subst u; exact Hlen | apply i_clen0; exact Hu].
   - exact i_own0.
@@ -976,28 +970,19 @@ Proof.
     + pose proof (i_bclk0 u w Hu Hw). lia.
 Qed.
 
-Lemma track_load_ok' : forall own s cs t c,
-  InvO own s cs -> t < length cs -> vle (clk cs t) c ->
-  track_load s c = inl (tl_state s c).
+Lemma track_load_inl : forall s c s1, track_load s c = inl s1 -> s1 = tl_state s c.
 Proof.
-  intros own s cs t c HI Ht Hc. unfold track_load, tl_state.
-  rewrite (i_mut HI).
-  assert (Ha : vv_ahead c (at_unsync_mut s) = None).
-  { apply vv_ahead_none. eapply vle_trans; [apply (i_um HI Ht) | exact Hc]. }
-  rewrite Ha. reflexivity.
+  intros s c s1 H. unfold track_load in H. destruct (at_mutating s) eqn:Hm; [discriminate|].
+  destruct (vv_ahead c (at_unsync_mut s)); [discriminate|]. inversion H.
+  unfold tl_state. rewrite Hm. reflexivity.
 Qed.
 
-Lemma track_store_ok' : forall own s cs t c,
-  InvO own s cs -> t < length cs -> vle (clk cs t) c ->
-  track_store s c = inl (ts_state s c).
+Lemma track_store_inl : forall s c s1, track_store s c = inl s1 -> s1 = ts_state s c.
 Proof.
-  intros own s cs t c HI Ht Hc. unfold track_store, ts_state.
-  rewrite (i_mut HI).
-  assert (Ha : vv_ahead c (at_unsync_mut s) = None).
-  { apply vv_ahead_none. eapply vle_trans; [apply (i_um HI Ht) | exact Hc]. }
-  assert (Hb : vv_ahead c (at_unsync_loaded s) = None).
-  { apply vv_ahead_none. eapply vle_trans; [apply (i_ul HI Ht) | exact Hc]. }
-  rewrite Ha, Hb. reflexivity.
+  intros s c s1 H. unfold track_store in H. destruct (at_mutating s) eqn:Hm; [discriminate|].
+  destruct (vv_ahead c (at_unsync_mut s)); [discriminate|].
+  destruct (vv_ahead c (at_unsync_loaded s)); [discriminate|]. inversion H.
+  unfold ts_state. rewrite Hm. reflexivity.
 Qed.
 
 Lemma InvO_tl : forall own s cs c, InvO own s cs -> InvO own (tl_state s c) cs.
@@ -1052,11 +1037,12 @@ Qed.
 Lemma aindex_small : forall n, n < MAX_ATOMIC_HISTORY -> aindex n = n.
 Proof. intros n Hn. unfold aindex. apply Nat.mod_small. exact Hn. Qed.
 
-Lemma sync_store_bound : forall sync0 c o u b,
-  vv_get sync0 u <= b -> vv_get c u <= b -> vv_get (sync_store sync0 c vv_new o) u <= b.
+Lemma sync_store_bound : forall sync0 c rel o u b,
+  vv_get sync0 u <= b -> vv_get c u <= b -> vv_get rel u <= b ->
+  vv_get (sync_store sync0 c rel o) u <= b.
 Proof.
-  intros sync0 c o u b H0 Hc. unfold sync_store.
-  destruct (ord_rel o); rewrite ?vv_get_join, vv_new_get; lia.
+  intros sync0 c rel o u b H0 Hc Hr. unfold sync_store.
+  destruct (ord_rel o); rewrite ?vv_get_join; lia.
 Qed.
 
 Section StorePhase.
@@ -1064,6 +1050,8 @@ Section StorePhase.
   Variable s : atomic_state.
   Variable cs : list vv.
   Variables (t : nat) (c sync0 : vv) (v : N) (o : ord) (src : option (nat * nat)).
+  (* the clock of the thread's last release fence: Ops.v passes t_rel *)
+  Variable rel : vv.
   Hypothesis HI : InvO own s cs.
   Hypothesis Ht : t < length cs.
   Hypothesis Hroom : at_cnt s < MAX_ATOMIC_HISTORY.
@@ -1073,13 +1061,14 @@ Section StorePhase.
   Hypothesis Hoth : forall u, u < length cs -> u <> t -> vv_get c u <= vv_get (clk cs u) u.
   Hypothesis Hsync0 : forall u, u < length cs ->
     vv_get sync0 u <= vv_get (clk (list_set cs t c) u) u.
+  Hypothesis Hrel : vle rel c.
 
   Let n := at_cnt s.
   Let cs' := list_set cs t c.
-  Let s' := atomic_store_from s t c vv_new sync0 v o src.
+  Let s' := atomic_store_from s t c rel sync0 v o src.
   Let own' := fun k => if Nat.eqb k n then t else own k.
   Let MN := store_from_mo s c src.
-  Let newst := mkStore v c MN (sync_store sync0 c vv_new o)
+  Let newst := mkStore v c MN (sync_store sync0 c rel o)
                        (seen_touch seen_new t (vv_get c t)) (is_seq_cst o) n src.
 
   Lemma sp_HI2 : InvO own s cs'.
@@ -1171,8 +1160,6 @@ Section StorePhase.
     - rewrite sp_cnt. lia.
     - rewrite sp_cnt. unfold n. lia.
     - apply (i_mut HI).
-    - apply (i_um H2).
-    - apply (i_ul H2).
     - apply (i_nthr H2).
     - apply (i_clen H2).
     - intros a Ha. rewrite sp_cnt in Ha. rewrite sp_get.
@@ -1210,6 +1197,9 @@ Section StorePhase.
       + subst a. rewrite sp_getn. cbn [st_sync newst]. apply sync_store_bound.
         * apply (Hsync0 Hu).
         * unfold cs'. rewrite (clk_set cs t c u Ht). destruct (Nat.eqb_spec u t) as [Heq|Hne]; [lia|].
+          apply (Hoth Hu Hne).
+        * eapply Nat.le_trans; [apply (Hrel u)|].
+          unfold cs'. rewrite (clk_set cs t c u Ht). destruct (Nat.eqb_spec u t) as [Heq|Hne]; [lia|].
           apply (Hoth Hu Hne).
     - apply (i_bclk H2).
     - intros a b Ha Hb HK. rewrite sp_cnt in Ha, Hb.
@@ -1330,15 +1320,15 @@ Proof.
   subst a. apply seen_touch_mono. exact Hs.
 Qed.
 
-Lemma store_phase_ext : forall own s cs t c sync0 v o src,
+Lemma store_phase_ext : forall own s cs t c rel sync0 v o src,
   InvO own s cs -> at_cnt s < MAX_ATOMIC_HISTORY ->
   ext own s (fun k => if Nat.eqb k (at_cnt s) then t else own k)
-      (atomic_store_from s t c vv_new sync0 v o src).
+      (atomic_store_from s t c rel sync0 v o src).
 Proof.
-  intros own s cs t c sync0 v o src HI Hroom.
+  intros own s cs t c rel sync0 v o src HI Hroom.
   split; [change (at_cnt s <= S (at_cnt s)); lia|].
   intros a Ha.
-  assert (Hold : get_store (atomic_store_from s t c vv_new sync0 v o src) a = get_store s a).
+  assert (Hold : get_store (atomic_store_from s t c rel sync0 v o src) a = get_store s a).
   { unfold atomic_store_from. cbv zeta. rewrite (aindex_small Hroom).
     rewrite get_store_set by (rewrite (i_len HI); exact Hroom).
     destruct (Nat.eqb_spec a (at_cnt s)); [lia|reflexivity]. }
@@ -1436,16 +1426,16 @@ Proof.
   split; [intros Hn; apply (H 0 Hn) | exact H].
 Qed.
 
-Lemma stamp_store : forall own s cs0 cs cs' t c sync0 v o src,
+Lemma stamp_store : forall own s cs0 cs cs' t c rel sync0 v o src,
   InvO own s cs0 -> at_cnt s < MAX_ATOMIC_HISTORY -> StampO s cs ->
   (forall u, vle (clk cs u) (clk cs' u)) -> vv_get c t <= vv_get (clk cs' t) t ->
-  StampO (atomic_store_from s t c vv_new sync0 v o src) cs'.
+  StampO (atomic_store_from s t c rel sync0 v o src) cs'.
 Proof.
-  intros own s cs0 cs cs' t c sync0 v o src HI Hroom HS Hg Hc.
+  intros own s cs0 cs cs' t c rel sync0 v o src HI Hroom HS Hg Hc.
   pose proof (@stamp_clock s cs cs' HS Hg) as [Hb Hl].
-  assert (Hget : forall a, get_store (atomic_store_from s t c vv_new sync0 v o src) a =
+  assert (Hget : forall a, get_store (atomic_store_from s t c rel sync0 v o src) a =
             if Nat.eqb a (at_cnt s)
-            then mkStore v c (store_from_mo s c src) (sync_store sync0 c vv_new o)
+            then mkStore v c (store_from_mo s c src) (sync_store sync0 c rel o)
                          (seen_touch seen_new t (vv_get c t)) (is_seq_cst o) (at_cnt s) src
             else get_store s a).
   { intros a. unfold atomic_store_from. cbv zeta. rewrite (aindex_small Hroom).
@@ -1485,7 +1475,7 @@ Proof.
     apply existsb_eqb_In in He. apply (load_candidates_spec _ _ _ _ _ _ Hm idx) in He.
     destruct He as [_ [Hidx Hall]].
     unfold atomic_load_g in Hstep.
-    rewrite (track_load_ok' HI Ht (sf_le cs t : vle (clk cs t) c)) in Hstep. cbv zeta in Hstep.
+    destruct (track_load s c) as [s1x|px] eqn:Htlx; [|discriminate]. apply track_load_inl in Htlx. subst s1x. cbv zeta in Hstep.
     inversion Hstep as [[Hs' Hcs']]. clear Hstep. subst s' cs'.
     assert (HI3 : InvO own (loadpart_g RC0421 (tl_state s c) t c idx) cs).
     { apply (@load_phase_inv own (tl_state s c) cs t c idx (InvO_tl c HI) Hidx).
@@ -1505,16 +1495,16 @@ Proof.
   - (* store *)
     destruct (Nat.leb_spec MAX_ATOMIC_HISTORY (at_cnt s)) as [Hfull|Hroom]; [discriminate|].
     set (c := vv_inc (clk cs t) t) in *.
-    rewrite (track_store_ok' HI Ht (sf_le cs t : vle (clk cs t) c)) in Hstep.
+    destruct (track_store s c) as [s1y|py] eqn:Htsy; [|discriminate]. apply track_store_inl in Htsy. subst s1y.
     inversion Hstep as [[Hs' Hcs']]. clear Hstep. subst s' cs'.
     eexists. unfold atomic_store.
     split.
-    { apply (@store_phase_inv own (ts_state s c) cs t c vv_new v o None (InvO_ts c HI) Ht Hroom
-               (sf_le cs t) (sf_fr HI Ht) (sf_len HI Ht) (sf_oth HI Ht)).
+    { apply (@store_phase_inv own (ts_state s c) cs t c vv_new v o None vv_new (InvO_ts c HI) Ht Hroom
+               (sf_le cs t) (sf_fr HI Ht) (sf_len HI Ht) (sf_oth HI Ht)); [|apply vle_new].
       intros u Hu. rewrite vv_new_get. lia. }
-    split; [apply (@store_phase_ext own (ts_state s c) cs t c vv_new v o None (InvO_ts c HI) Hroom)|].
+    split; [apply (@store_phase_ext own (ts_state s c) cs t c vv_new vv_new v o None (InvO_ts c HI) Hroom)|].
     split; [apply list_set_length|]. split; [apply (@clk_set_grow cs t _ Ht (sf_le cs t))|].
-    intros HS. apply (@stamp_store own (ts_state s c) cs cs _ t c vv_new v o None (InvO_ts c HI) Hroom (stamp_ts c HS) (@clk_set_grow cs t _ Ht (sf_le cs t))).
+    intros HS. apply (@stamp_store own (ts_state s c) cs cs _ t c vv_new vv_new v o None (InvO_ts c HI) Hroom (stamp_ts c HS) (@clk_set_grow cs t _ Ht (sf_le cs t))).
     rewrite (clk_set cs t _ t Ht), Nat.eqb_refl. apply le_n.
   - (* rmw *)
     destruct (Nat.leb_spec MAX_ATOMIC_HISTORY (at_cnt s)) as [Hfull|Hroom]; [discriminate|].
@@ -1524,7 +1514,7 @@ Proof.
     apply existsb_eqb_In in He. apply (rmw_candidates_spec _ _ Hm idx) in He.
     destruct He as [_ [Hidx Hall]].
     unfold atomic_rmw_g in Hstep.
-    rewrite (track_load_ok' HI Ht (sf_le cs t : vle (clk cs t) c)) in Hstep. cbv zeta in Hstep.
+    destruct (track_load s c) as [s1x|px] eqn:Htlx; [|discriminate]. apply track_load_inl in Htlx. subst s1x. cbv zeta in Hstep.
     assert (HI3 : InvO own (loadpart_g RC0421 (tl_state s c) t c idx) cs).
     { apply (@load_phase_inv own (tl_state s c) cs t c idx (InvO_tl c HI) Hidx).
       intros x Hx Hne _.
@@ -1534,25 +1524,25 @@ Proof.
     set (s3 := loadpart_g RC0421 (tl_state s c) t c idx) in *.
     assert (Hidx3 : idx < at_cnt s3) by exact Hidx.
     destruct (f (st_value (get_store s3 idx))) as [next|].
-    + rewrite (track_store_ok' HI3 Ht (sf_le cs t : vle (clk cs t) c)) in Hstep.
+    + destruct (track_store s3 c) as [s1y|py] eqn:Htsy; [|discriminate]. apply track_store_inl in Htsy. subst s1y.
       inversion Hstep as [[Hs' Hcs']]. clear Hstep. subst s' cs'.
       destruct (acq_clock so HI3 Ht Hidx3) as [H1 [H2 [H3 H4]]].
       eexists.
       split.
-      { apply (@store_phase_inv own (ts_state s3 c) cs t _ _ next so _ (InvO_ts c HI3) Ht Hroom H1 H2 H3 H4).
+      { apply (@store_phase_inv own (ts_state s3 c) cs t _ _ next so _ vv_new (InvO_ts c HI3) Ht Hroom H1 H2 H3 H4); [|apply vle_new].
         intros u Hu. change (get_store (ts_state s3 c) idx) with (get_store s3 idx).
         pose proof (i_bsync HI3 Hidx3 Hu) as Hb.
         rewrite (clk_set cs t _ u Ht). destruct (Nat.eqb_spec u t) as [Heq|_]; [|exact Hb].
         subst u. eapply Nat.le_trans; [exact Hb|]. apply Nat.lt_le_incl. exact H2. }
       split.
       { eapply ext_trans; [exact Hext3|].
-        apply (@store_phase_ext own (ts_state s3 c) cs t _ _ next so _ (InvO_ts c HI3) Hroom). }
+        apply (@store_phase_ext own (ts_state s3 c) cs t _ vv_new _ next so _ (InvO_ts c HI3) Hroom). }
       split; [apply list_set_length|]. split; [apply (@clk_set_grow cs t _ Ht H1)|].
       intros HS.
       match goal with |- StampO _ ?X => assert (HS3 : StampO s3 X) end.
       { apply (@stamp_load own (tl_state s c) cs cs _ t c idx (InvO_tl c HI) Hidx (stamp_tl c HS) (@clk_set_grow cs t _ Ht H1)).
         rewrite (clk_set cs t _ t Ht), Nat.eqb_refl. apply (sync_load_ge c _ so t). }
-      apply (@stamp_store own (ts_state s3 c) cs _ _ t _ _ next so _ (InvO_ts c HI3) Hroom (stamp_ts c HS3) (fun u0 => vle_refl _)).
+      apply (@stamp_store own (ts_state s3 c) cs _ _ t _ vv_new _ next so _ (InvO_ts c HI3) Hroom (stamp_ts c HS3) (fun u0 => vle_refl _)).
       rewrite (clk_set cs t _ t Ht), Nat.eqb_refl. apply le_n.
     + inversion Hstep as [[Hs' Hcs']]. clear Hstep. subst s' cs'.
       exists own.
@@ -1623,8 +1613,6 @@ Proof.
   - cbn. lia.
   - cbn. unfold MAX_ATOMIC_HISTORY. lia.
   - reflexivity.
-  - intros t Ht. rewrite (Hclk t Ht). apply vle_refl.
-  - intros t Ht. apply vle_new.
   - rewrite repeat_length. exact Hn5.
   - intros t Ht. rewrite (Hclk t Ht). rewrite repeat_length in Ht. unfold MAX_THREADS in Hn5. cbn. lia.
   - intros a Ha. cbn in Ha.
@@ -1797,13 +1785,13 @@ Proof.
   destruct (Nat.ltb_spec t (length cs)) as [Ht|Ht]; cbn [negb] in Hstep; [|discriminate].
   destruct (Nat.leb_spec MAX_ATOMIC_HISTORY (at_cnt s)) as [Hfull|Hroom]; [discriminate|].
   set (c := vv_inc (clk cs t) t) in *.
-  rewrite (track_store_ok' HI Ht (sf_le cs t : vle (clk cs t) c)) in Hstep.
+  destruct (track_store s c) as [s1y|py] eqn:Htsy; [|discriminate]. apply track_store_inl in Htsy. subst s1y.
   inversion Hstep as [Hst]. clear Hstep Hst. cbn [fst]. unfold atomic_store.
   split; [change (at_cnt s < S (at_cnt s)); lia|].
   assert (Hsync0 : forall u, u < length cs -> vv_get vv_new u <= vv_get (clk (list_set cs t c) u) u).
   { intros u Hu. rewrite vv_new_get. lia. }
-  apply (@store_phase_after_seen own (ts_state s c) cs t c vv_new v o None (InvO_ts c HI) Ht Hroom
-           (sf_le cs t) (sf_fr HI Ht) (sf_len HI Ht) (sf_oth HI Ht) Hsync0 i Hi).
+  apply (@store_phase_after_seen own (ts_state s c) cs t c vv_new v o None vv_new (InvO_ts c HI) Ht Hroom
+           (sf_le cs t) (sf_fr HI Ht) (sf_len HI Ht) (sf_oth HI Ht) Hsync0 (vle_new _) i Hi).
   apply (seen_clock_mono _ _ _ (vle_inc (clk cs t) t) Hk).
 Qed.
 
@@ -1817,7 +1805,7 @@ Proof.
   destruct (Nat.ltb_spec t (length cs)) as [Ht|Ht]; cbn [negb] in Hstep; [|discriminate].
   destruct (Nat.leb_spec MAX_ATOMIC_HISTORY (at_cnt s)) as [Hfull|Hroom]; [discriminate|].
   set (c := vv_inc (clk cs t) t) in *.
-  rewrite (track_store_ok' HI Ht (sf_le cs t : vle (clk cs t) c)) in Hstep.
+  destruct (track_store s c) as [s1y|py] eqn:Htsy; [|discriminate]. apply track_store_inl in Htsy. subst s1y.
   inversion Hstep as [Hst]. clear Hstep Hst. cbn [fst snd].
   split; [change (at_cnt s < S (at_cnt s)); lia|].
   unfold atomic_store, atomic_store_from.
@@ -1894,7 +1882,7 @@ Proof.
   apply existsb_eqb_In in He. apply (load_candidates_spec _ _ _ _ _ _ Hm i) in He.
   destruct He as [H7 [Hidx _]].
   unfold atomic_load_g in Hstep.
-  rewrite (track_load_ok' HI Ht (sf_le cs t : vle (clk cs t) c)) in Hstep. cbv zeta in Hstep.
+  destruct (track_load s c) as [s1x|px] eqn:Htlx; [|discriminate]. apply track_load_inl in Htlx. subst s1x. cbv zeta in Hstep.
   inversion Hstep as [Hst]. clear Hstep Hst. cbn [fst snd].
   split; [exact Hidx|].
   rewrite (@lp_seen own (tl_state s c) cs t c i (InvO_tl c HI) Hidx i H7). rewrite Nat.eqb_refl.
